@@ -283,7 +283,7 @@ META["C16"] = {
 
 META["C19"] = {
     "title": "Scheduled tasks run at most once, never early, and stay cancelled",
-    "rule": "cases = (set of 1-4 tasks scheduled directly through the public Scheduler::schedule on the order-choosing executor: OnceTask, OnceTask returning a subscription (SubscribeReturn), FutureTask over a scripted future pending 0-2 polls, RepeatTask (new and new_immediate) with period 1|5 ms declining after 1-4 runs; delay in {none, 0, 0.4, 0.999, 1, 5} ms; for each handle a cancellation step (or none); local or thread-safe scheduler form; fifo|any task order; prompt|late schedule; seed). is_closed() of every handle is sampled before every step. Non-trivial: a cancellation fell while its task was still pending (scheduled, not finished); distinct = hash(case). Real-clock part (crate rtimer/, library built with its DEFAULT features, i.e. the built-in timer; counters real_timer_cases, real_clock_lower_bounds_checked, real_clock_cancellations_before_due, real_clock_far_future_delays): OnceTask with delays from a grid of sub-millisecond / fractional-millisecond durations plus seeded ones on LocalPool and a 2-thread ThreadPool: the body starts no earlier than (instant before schedule()) + delay and runs exactly once; a task cancelled before it is due has not run after the thread slept past the due time and the pool ran; RepeatTask::new / with_first_delay (periods from the same grid, 0 included): runs at least one period apart, sequence numbers 0..3 consecutive, no run beyond the declining one; delays of 1 h, 30 years, 2^32 ms, 2^32 s, 2^64/1000 s and Duration::MAX: the body has not run after a few milliseconds.",
+    "rule": "cases = (set of 1-4 tasks scheduled directly through the public Scheduler::schedule on the order-choosing executor: OnceTask, OnceTask returning a subscription (SubscribeReturn), FutureTask over a scripted future pending 0-2 polls, RepeatTask (new and new_immediate) with period 1|5 ms declining after 1-4 runs; delay in {none, 0, 0.4, 0.999, 1, 5} ms; for each handle a cancellation step (or none); local or thread-safe scheduler form; fifo|any task order; prompt|late schedule; seed). is_closed() of every handle is sampled before every step. Thread part (baton scheduler, counter thread_schedules): 1-3 one-shot tasks run by 1-2 worker threads while another thread cancels their handles; in half of the runs (counter runs_with_handles_shared_by_two_owners) every handle is held in its shared form MutArc<Option<TaskHandle>> (the form debounce / throttle keep their pending task in) by two owners on two threads, the second of which samples is_closed() before it unsubscribes: no body starts after any unsubscribe() returned or any is_closed() returned true, and no body is still running at that moment. Non-trivial: a cancellation fell while its task was still pending (scheduled, not finished); distinct = hash(case). Real-clock part (crate rtimer/, library built with its DEFAULT features, i.e. the built-in timer; counters real_timer_cases, real_clock_lower_bounds_checked, real_clock_cancellations_before_due, real_clock_far_future_delays): OnceTask with delays from a grid of sub-millisecond / fractional-millisecond durations plus seeded ones on LocalPool and a 2-thread ThreadPool: the body starts no earlier than (instant before schedule()) + delay and runs exactly once; a task cancelled before it is due has not run after the thread slept past the due time and the pool ran; RepeatTask::new / with_first_delay (periods from the same grid, 0 included): runs at least one period apart, sequence numbers 0..3 consecutive, no run beyond the declining one; delays of 1 h, 30 years, 2^32 ms, 2^32 s, 2^64/1000 s and Duration::MAX: the body has not run after a few milliseconds.",
     "assumptions": COMMON_ASSUME + [
         "bodies are harness fn pointers that log start/end stamps; 'never early' is judged on virtual time: a one-shot body not before schedule + delay, a repeating body not before its delay and later runs at least one period apart",
         "single-threaded here: 'the body is not still running when unsubscribe() returns' is checked by the baton scenarios (worker thread vs cancelling thread) reported under thread_* counters",
@@ -292,7 +292,7 @@ META["C19"] = {
     "level_text": "Exploration over sampled task sets, cancellation points and run orders.",
     "level_note": "Trusted: arena executor, virtual clock; the library's remote_handle/Remote::poll/TaskHandle run unchanged.",
     "design_ref": "DESIGN.md §5 C19",
-    "require": {"quick": {"real_timer_cases": 150, "real_clock_lower_bounds_checked": 300, "real_clock_far_future_delays": 6, "cancellations_while_pending": 20000, "task_kinds_covered": 5, "thread_schedules": 4000}, "thorough": {"real_timer_cases": 1500, "real_clock_lower_bounds_checked": 3000, "real_clock_far_future_delays": 6, "task_kinds_covered": 5}},
+    "require": {"quick": {"real_timer_cases": 150, "real_clock_lower_bounds_checked": 300, "real_clock_far_future_delays": 6, "runs_with_handles_shared_by_two_owners": 3000, "cancellations_while_pending": 20000, "task_kinds_covered": 5, "thread_schedules": 4000}, "thorough": {"real_timer_cases": 1500, "real_clock_lower_bounds_checked": 3000, "real_clock_far_future_delays": 6, "task_kinds_covered": 5}},
 }
 
 META["C14"] = {
@@ -367,7 +367,7 @@ META["C18"] = {
 
 META["C10"] = {
     "title": "Thread-safe variants serialise delivery and cannot deadlock",
-    "rule": "cases = (scenario family, 2-3 real OS threads each with a script of 1-4 of next / complete / error / subscribe / unsubscribe, baton schedule). Families: SubjectThreads, BehaviorSubject<_, SubjectThreads>, merge_threads, zip_threads, combine_latest_threads, with_latest_from_threads, take_until_threads, skip_until_threads, sample_threads, merge_all_threads (outer thread + hot inner threads, limit 1..k), finalize_threads, share_threads, observe_on_threads and delay_threads with 1-2 managed worker threads running the scheduled tasks, and a three-stage merge+finalize+take_until pipeline. The baton scheduler lets one managed thread run at a time; every MutArc lock acquisition (hook), every probe callback and every worker iteration is a scheduling point where a seeded uniform or PCT (d=1..3) strategy picks who continues. Two exploration modes: (i) SYSTEMATIC - for 2 (quick) / 8 (thorough) generated scenarios of every family (threads truncated to 3 operations) ALL schedules with at most 1 (quick) / 2 (thorough) preemptions are enumerated (the running thread continues unless it blocks or finishes; forced switches are free; capped at 4k / 60k schedules per scenario, caps are counted); (ii) RANDOM - seeded uniform and PCT(d=1..3) schedules of freshly generated scenarios; (iii) FREE-RUNNING - the same families on truly parallel OS threads with seeded yields/spins/micro-sleeps injected at every lock point (free_parallel_runs; distinct_free_run_event_orders counts the distinct orders of stamped events actually observed); a free-running thread that does not finish in 20 s is INCONCLUSIVE. Additional oracles: the thread-safe two-input combinators must be LINEARIZABLE (some total order of the concurrent calls consistent with their call/return stamps makes the timeline model produce the observed output); merge_all_threads: conservation, per-inner order, live inners <= limit, completion neither lost nor early. Oracles: a probe never entered on two threads at once, grammar per probe, one common order of shared items among subscribers of one subject/share, no logical deadlock (every unfinished thread blocked on a cell probed as held), no panic, every scripted call returned. Non-trivial: the schedule had at least one context switch; distinct = hash(scenario, schedule trace).",
+    "rule": "cases = (scenario family, 2-3 real OS threads each with a script of 1-4 of next / complete / error / subscribe / unsubscribe, baton schedule). Families: SubjectThreads, BehaviorSubject<_, SubjectThreads>, merge_threads, zip_threads, combine_latest_threads, with_latest_from_threads, take_until_threads, skip_until_threads, sample_threads, merge_all_threads (outer thread + hot inner threads, limit 1..k), finalize_threads, share_threads, observe_on_threads and delay_threads with 1-2 managed worker threads running the scheduled tasks, and a three-stage merge+finalize+take_until pipeline. The baton scheduler lets one managed thread run at a time; every MutArc lock acquisition (hook), every probe callback and every worker iteration is a scheduling point where a seeded uniform or PCT (d=1..3) strategy picks who continues. Two exploration modes: (i) SYSTEMATIC - for 2 (quick) / 8 (thorough) generated scenarios of every family (threads truncated to 3 operations) ALL schedules with at most 1 (quick) / 2 (thorough) preemptions are enumerated (the running thread continues unless it blocks or finishes; forced switches are free; capped at 4k / 60k schedules per scenario, caps are counted); (ii) RANDOM - seeded uniform and PCT(d=1..3) schedules of freshly generated scenarios; (iii) FREE-RUNNING - the same families on truly parallel OS threads with seeded yields/spins/micro-sleeps injected at every lock point (free_parallel_runs; distinct_free_run_event_orders counts the distinct orders of stamped events actually observed); a free-running thread that does not finish in 20 s is INCONCLUSIVE. (iv) CROSS-COUPLED pipelines (counters cross_coupled_schedules, distinct_cross_coupled_schedules; 5 variants): two thread-safe subjects a and b with a.flat_map_threads(->b) and b.flat_map_threads(->a) subscribed, thread 1 emitting into a while thread 2 emits into b; the same over two BehaviorSubjects; from_iter([a,b]).concat_all_threads() next to from_iter([b,a]).concat_all_threads() with a and b completing concurrently; from_iter([s,s]).concat_all_threads() with s completing (the hand-over subscribes s from inside s's own completion, on one thread); a.take_until_threads(b), b.take_until_threads(a) and a.merge_threads(b) together - nobody re-enters his own pipeline from a callback, it is the operators that subscribe / feed subject B from inside a delivery of subject A; oracle: logical deadlock detector, single-thread self-deadlock probe, panic, every call returned. Additional oracles: the thread-safe two-input combinators must be LINEARIZABLE (some total order of the concurrent calls consistent with their call/return stamps makes the timeline model produce the observed output); merge_all_threads: conservation, per-inner order, live inners <= limit, completion neither lost nor early. Oracles: a probe never entered on two threads at once, grammar per probe, one common order of shared items among subscribers of one subject/share, no logical deadlock (every unfinished thread blocked on a cell probed as held), no panic, every scripted call returned. Non-trivial: the schedule had at least one context switch; distinct = hash(scenario, schedule trace).",
     "assumptions": COMMON_ASSUME + [
         "interleavings are sampled at lock-acquisition granularity (plus the explicit points); lock releases and code between two acquisitions are not separate scheduling points",
         "callers do not re-enter the same pipeline from inside a callback (excluded by the statement)",
@@ -378,7 +378,7 @@ META["C10"] = {
     "level_text": "Exploration: preemption-bounded systematic enumeration (bound 1 quick, 2 thorough) on small scenarios of all 20 families plus sampled lock-level interleavings (uniform + PCT); logical deadlock detection is exact on every schedule run.",
     "level_note": "Trusted: baton scheduler (harness/src/conc.rs), the lock hook placement before MutArc::lock, probes.",
     "design_ref": "DESIGN.md §5 C10",
-    "require": {"quick": {"thread_scenarios_covered": 25, "distinct_thread_schedules": 8000, "systematic_scenarios": 40}, "thorough": {"thread_scenarios_covered": 25, "systematic_scenarios": 160}},
+    "require": {"quick": {"thread_scenarios_covered": 25, "distinct_thread_schedules": 8000, "systematic_scenarios": 40, "cross_coupled_schedules": 5000, "cross_coupled_variants": 5}, "thorough": {"thread_scenarios_covered": 25, "systematic_scenarios": 160, "cross_coupled_schedules": 300000, "cross_coupled_variants": 5}},
     "watchdog_s": {"quick": 600, "thorough": 7200},
 }
 
